@@ -13,7 +13,8 @@
       join through (`join_decodes`, `catSafe_decodes`; `escape_counterexample` is the hazard plain `_cat` had before 05486b1).
       `sound` / `refuse` and the output theorems cut them out: `int('\x31')` is 1 in CPython and a wrapped ValueError in the folder
       (an application error, allowed), and the C++ reader of an inlined text is modelled for plain contents only.
-      Tokens with `\u`, `\U`, `\N{…}` stay outside `evalPy` (`unsupported`).
+      `\uhhhh` and `\Uhhhhhhhh` are decoded as well (every scalar value a `Char` holds); tokens with `\N{…}` or a lone surrogate
+      stay outside `evalPy` (`unsupported`).
   Second observation point (the text py2cpp inlines for `Enum.Member.value`, Tranp/Model/EmitValue.lean): `output_agree`,
   `output_sound` (no guard on the expression; the type answer of Reflections must fit CPython's value).
   Helper lemmas: Tranp/Lemmas/Evaluator.lean, Tranp/Lemmas/EmitValue.lean.
@@ -55,7 +56,8 @@ example :
 
 /-- **agree** (no guard): a value of the folder and a value of CPython are the same value of the same type — a string of the folder
     is a raw body between two quote characters and CPython's string is what that body DECODES to (`decodeEsc`: octal, `\xhh`,
-    one-character and unknown escapes; tokens with `\u`, `\U`, `\N{…}` are outside `evalPy`) — for every expression, environment,
+    `\uhhhh`, `\Uhhhhhhhh`, one-character and unknown escapes; tokens with `\N{…}` or a lone surrogate are outside `evalPy`) — for
+    every expression, environment,
     fuel and interpretation of `float` with `FloatText`. -/
 theorem agree {F : Type} (ops : FloatOps F) (hops : FloatText ops) (env : Env) (fuel : Nat) (e : Expr) (venv : VEnv F) (v v' : V F)
     (hc : Cons .py ops env venv)
@@ -84,6 +86,16 @@ example :
     ∧ evalPy .py freeOps [['i','n','t']] [] (toPy e) = .ok (.str ['a','\n','A','b'])
     ∧ execImpl freeOps ⟨[], [['i','n','t']]⟩ 5 i = .error (.fatal .valueError)
     ∧ evalPy .py freeOps [['i','n','t']] [] (toPy i) = .ok (.int 1) := by
+  decide
+
+/-- non-vacuity of `agree` on `\u` / `\U` escapes: `'\u00e9' + "t\U0001F600"` folds to the token `'\u00e9t\U0001F600'` (18 raw
+    characters), CPython has the three characters `é`, `t`, U+1F600; `'\ud800'` (a lone surrogate) is outside `evalPy`. -/
+example :
+    let e : Expr := .chain ['o','n','_','s','u','m'] (.string ['\'','\\','u','0','0','e','9','\''])
+      [(['+'], .string ['"','t','\\','U','0','0','0','1','F','6','0','0','"'])]
+    execImpl freeOps ⟨[], []⟩ 5 e = .ok (.str ['\'','\\','u','0','0','e','9','t','\\','U','0','0','0','1','F','6','0','0','\''])
+    ∧ evalPy .py freeOps [] [] (toPy e) = .ok (.str [Char.ofNat 0xe9, 't', Char.ofNat 0x1f600])
+    ∧ evalPy .py freeOps [] [] (.strLit ['\'','\\','u','d','8','0','0','\'']) = .error .unsupported := by
   decide
 
 /-- **refuse**: when the folder fails, it refuses (OperationNotAllowed, UnresolvedSymbol, an error of type inference, the
@@ -191,7 +203,7 @@ theorem escape_counterexample : ¬ cat_commutes_with_decoding_statement := by
 
 /-- **join_decodes**: the law holds for every pair of bodies except when the left one ends inside an escape sequence the right
     one continues (`joinsEscape`: for bodies of valid tokens, `\o` / `\oo` at the end and an octal digit next) — for octal,
-    `\xhh` and the one-character escapes, all body texts. -/
+    `\xhh`, `\uhhhh`, `\Uhhhhhhhh` and the one-character escapes, all body texts. -/
 theorem join_decodes (l r : Str) (h : joinsEscape l r = false) : decodeEsc (l ++ r) = decodeEsc l ++ decodeEsc r := by
   unfold decodeEsc
   rw [decodeGo_append, decodeGo_eq .normal l, List.append_assoc]
@@ -207,8 +219,7 @@ theorem join_decodes (l r : Str) (h : joinsEscape l r = false) : decodeEsc (l ++
     | nil => trivial
     | cons c cs => simpa using h
   | backslash => rw [hst] at h; cases h
-  | hex0 => rw [hst] at h; cases h
-  | hex1 c0 v => rw [hst] at h; cases h
+  | hex k need seen v => rw [hst] at h; cases h
 
 /-- non-vacuity of `join_decodes`: `a\n` + `b`, `\\` + `1` (an escaped backslash, then a digit) and `\123` + `4` join safely. -/
 example : joinsEscape ['a','\\','n'] ['b'] = false ∧ joinsEscape ['\\','\\'] ['1'] = false ∧ joinsEscape ['\\','1','2','3'] ['4'] = false
@@ -241,7 +252,8 @@ example : catSafe ['\'','\\','1','\''] ['\'','2','\''] = .error .notAllowed
 
 /-- **pyInt_accepts_iff**: the model of Python's `int(str)` for base 10 (what both evaluators apply to the un-quoted content of a
     string argument) accepts exactly the texts `blanks sign? digit (_? digit)* blanks` and returns the value they denote; blanks are
-    C `isspace` plus the Unicode White_Space characters beyond ASCII (`wsCodes`), a digit is an ASCII digit. Everything else —
+    C `isspace` plus the Unicode White_Space characters beyond ASCII (`wsCodes`), a digit is any Unicode decimal digit (category Nd:
+    `digVal 10` over the generated table `Generated/UnicodeDigits.decimalZeros`, scripts may be mixed). Everything else —
     float-looking text, `1__0`, `_1`, `1_`, the empty text, a sign after a blank-separated digit — is a ValueError. -/
 theorem pyInt_accepts_iff (s : Str) (n : Int) : pyInt 10 s = .ok n ↔ IntText s n :=
   ⟨pyInt_sound, pyInt_complete⟩
@@ -265,6 +277,15 @@ example :
     ∧ pyInt 10 [Char.ofNat 0x2003, '-', '1', '2', Char.ofNat 0x85] = .ok (-12)
     ∧ pyInt 10 ['2','.','7'] = .error .valueError ∧ pyInt 10 ['1','_','_','0'] = .error .valueError
     ∧ pyInt 10 ['1','_'] = .error .valueError ∧ pyInt 10 [Char.ofNat 0x1c, '1', '2'] = .error .valueError := by
+  decide
+
+/-- non-vacuity beyond ASCII: ARABIC-INDIC `١٢` is 12, a FULLWIDTH digit after an ASCII one and an underscore (`1_２`) is 12 as well,
+    SUPERSCRIPT TWO (category No, not a decimal digit) and ROMAN NUMERAL ONE are rejected. -/
+example :
+    pyInt 10 [Char.ofNat 0x661, Char.ofNat 0x662] = .ok 12
+    ∧ pyInt 10 ['1', '_', Char.ofNat 0xff12] = .ok 12
+    ∧ pyInt 10 ['-', Char.ofNat 0x1d7d7] = .ok (-9)
+    ∧ pyInt 10 [Char.ofNat 0xb2] = .error .valueError ∧ pyInt 10 [Char.ofNat 0x2160] = .error .valueError := by
   decide
 
 /-- the evaluator's `int('<text>')` folds to `n` exactly for the texts of the grammar (`[1:-1]` of the token, then `int`). -/
